@@ -368,6 +368,7 @@ def run_poll(mult, plans, want_polls=2, limit=120.0):
             attempts = len(env.socks) + env.refused
             if fails and attempts < len(fails) + 1 and len(proc.got) >= want_polls * K:
                 bad.append(("no-reconnect-after-failure:poll", "%s: %d failures but only %d connection attempts" % (where, len(fails), attempts)))
+            gc.collect()       # a connector whose construction failed is closed by its finaliser (reference cycle)
             open_socks = [s.ordinal for s in env.socks if not s.closed]
             if len(open_socks) > 1:
                 bad.append(("connection-not-closed:poll", "%s: connections %r are still open at the end" % (where, open_socks)))
